@@ -49,6 +49,7 @@ def dump(crate, force=False):
                     rc, log = pr.returncode, pr.stderr
                 except subprocess.TimeoutExpired:
                     rc, log = 1, "timeout"
+            os.makedirs(os.path.join(C.BUILD, "logs"), exist_ok=True)
             with open(os.path.join(C.BUILD, "logs", "mirdump-%s.log" % crate), "w") as fl:
                 fl.write(log)
             text = open(tmp).read()
